@@ -159,51 +159,88 @@ func (c *Ctx) relayFunction(fi *load.FuncInfo) {
 			return true
 		})
 	}
-	// the !ok branch of the payload assertion forwards the received event
-	ast.Inspect(fi.Decl.Body, func(n ast.Node) bool {
-		as, ok := n.(*ast.AssignStmt)
-		if !ok || len(as.Lhs) != 2 || len(as.Rhs) != 1 {
-			return true
-		}
-		ta, ok := ast.Unparen(as.Rhs[0]).(*ast.TypeAssertExpr)
-		if !ok || ta.Type == nil {
-			return true
-		}
-		okID, _ := as.Lhs[1].(*ast.Ident)
-		if okID == nil {
-			return true
-		}
-		// from after the assertion with !ok: before the next receive, a send of `event` itself must be passed
-		var fwd []ast.Node
-		ast.Inspect(fi.Decl.Body, func(m ast.Node) bool {
-			if s, ok := m.(*ast.SendStmt); ok && fn.Term(s.Value).Key() == fn.Term(event).Key() {
-				fwd = append(fwd, s)
+	// every send of the relay, in the relay itself or in a helper expanded into it
+	type sendSite struct {
+		s    *ast.SendStmt
+		body *ast.BlockStmt
+	}
+	var sites []sendSite
+	var sends []ast.Node
+	for _, bd := range fn.Bodies() {
+		bd := bd
+		ast.Inspect(bd, func(n ast.Node) bool {
+			if s, ok := n.(*ast.SendStmt); ok {
+				sites = append(sites, sendSite{s, bd})
+				sends = append(sends, s)
 			}
 			return true
 		})
-		st := an.StateAfter(as).Assume(gf.Not(gf.FBool(fn.Term(okID))))
-		aU := fn.FromAfterUntil(as, st, fwd...)
-		// with the forwards as stops, the next receive must be unreachable
-		lost := aU.StateBefore(recv).Reachable() && aU.Reentered(recv)
-		c.Check(len(fwd) > 0 && !lost, "C20.1-unknown-payload-is-forwarded", name+": !ok branch of "+types.ExprString(ta), as.Pos(),
-			"an event whose payload is not a StatefulSet is sent on unchanged before the next receive", "an event with an unexpected payload is dropped (or crashes) instead of being relayed")
-		return true
-	})
-	// (2) sends: each is the comm of a select clause with a sibling receive from a Stop-closed channel that returns
+	}
+	// the event as received: a ghost the receive's variable equals right after the receive. "Sent on unchanged"
+	// and "carries the received type" are statements about the ghost, however the code names or re-assigns things.
+	evObj := info.ObjectOf(event)
+	ghost := types.NewVar(recv.Pos(), fi.Pkg.Types, "received", evObj.Type())
+	gT := gf.Var(ghost)
+	saved := fn.PostFacts
+	pf := map[ast.Node]*gf.Formula{}
+	for k, v := range saved {
+		pf[k] = v
+	}
+	pf[recv] = gf.FEq(gf.Var(evObj), gT)
+	fn.PostFacts = pf
+	fn.KeepDead = true
+	an = fn.Analyze(nil)
+	restore := func() { fn.PostFacts, fn.KeepDead = saved, false }
+	defer restore()
+	// the failed branch of the payload assertion forwards the received event
+	nAssert := 0
+	for _, bd := range fn.Bodies() {
+		ast.Inspect(bd, func(n ast.Node) bool {
+			as, ok := n.(*ast.AssignStmt)
+			if !ok || len(as.Lhs) != 2 || len(as.Rhs) != 1 {
+				return true
+			}
+			ta, ok := ast.Unparen(as.Rhs[0]).(*ast.TypeAssertExpr)
+			if !ok || ta.Type == nil {
+				return true
+			}
+			okID, _ := as.Lhs[1].(*ast.Ident)
+			if okID == nil {
+				return true
+			}
+			nAssert++
+			// from after the assertion with !ok: before the next receive a send is passed, and what it sends is the received event
+			st := an.StateAfter(as).Assume(gf.Not(gf.FBool(fn.Term(okID))))
+			aU := fn.FromAfterUntil(as, st, sends...)
+			lost := aU.Reentered(recv)
+			unchanged := true
+			reached := 0
+			for _, sd := range sites {
+				ss := aU.StateBefore(sd.s)
+				if !ss.Reachable() {
+					continue
+				}
+				reached++
+				if good, _ := ss.Implies(gf.FEq(fn.Term(sd.s.Value), gT)); !good {
+					unchanged = false
+				}
+			}
+			c.Check(reached > 0 && !lost && unchanged, "C20.1-unknown-payload-is-forwarded", name+": !ok branch of "+types.ExprString(ta), as.Pos(),
+				"an event whose payload is not a StatefulSet is sent on unchanged before the next receive", "an event with an unexpected payload is dropped (or crashes, or is altered) instead of being relayed")
+			return true
+		})
+	}
+	// (2) sends: each is the comm of a select clause with a sibling receive from a Stop-closed channel whose case leaves the relay
 	nSend := 0
 	closed := c.closedByStop()
-	ast.Inspect(fi.Decl.Body, func(n ast.Node) bool {
-		s, ok := n.(*ast.SendStmt)
-		if !ok {
-			return true
-		}
+	for _, sd := range sites {
+		s := sd.s
 		nSend++
 		sname := fmt.Sprintf("%s: %s <- %s", name, types.ExprString(s.Chan), clip(types.ExprString(s.Value), 40))
-		p := pathTo(fi.Decl.Body, s)
+		p := pathTo(sd.body, s)
 		good := false
 		if len(p) >= 3 {
 			if cc, ok := p[len(p)-2].(*ast.CommClause); ok && cc.Comm == ast.Stmt(s) {
-				// find the enclosing select
 				for i := len(p) - 3; i >= 0; i-- {
 					sel, ok := p[i].(*ast.SelectStmt)
 					if !ok {
@@ -222,12 +259,17 @@ func (c *Ctx) relayFunction(fi *load.FuncInfo) {
 						if !ok || u.Op != token.ARROW {
 							continue
 						}
-						if sel2, ok := ast.Unparen(u.X).(*ast.SelectorExpr); ok && closed[sel2.Sel.Name] {
-							// the sibling case leaves the relay
-							if len(oc.Body) > 0 {
-								if _, isRet := oc.Body[len(oc.Body)-1].(*ast.ReturnStmt); isRet {
-									good = true
+						if sel2, ok := ast.Unparen(u.X).(*ast.SelectorExpr); ok && closed[sel2.Sel.Name] && len(oc.Body) > 0 {
+							// the sibling case leaves the relay: from its body neither the receive nor a send is reached again
+							aL := fn.From(oc.Body[0], gf.TrueState())
+							leaves := !aL.Reentered(recv)
+							for _, o := range sends {
+								if aL.StateBefore(o).Reachable() {
+									leaves = false
 								}
+							}
+							if leaves {
+								good = true
 							}
 						}
 					}
@@ -235,10 +277,10 @@ func (c *Ctx) relayFunction(fi *load.FuncInfo) {
 				}
 			}
 		}
-		c.Check(good, "C20.2-no-unguarded-send", sname, s.Pos(), "the send is a select case next to `<-done` (closed by Stop), whose case returns", "a bare send can block forever after the consumer stopped the watch: the goroutine leaks and the result channel is never closed")
-		return true
-	})
+		c.Check(good, "C20.2-no-unguarded-send", sname, s.Pos(), "the send is a select case next to `<-done` (closed by Stop), whose case leaves the relay", "a bare send can block forever after the consumer stopped the watch: the goroutine leaks and the result channel is never closed")
+	}
 	c.Floor("C20.2-sends-in-relay", nSend, 1)
+
 	// (3) deferred close(result) and Stop before the loop
 	var loopPos token.Pos = fi.Decl.Body.End()
 	for _, s := range fi.Decl.Body.List {
@@ -269,69 +311,106 @@ func (c *Ctx) relayFunction(fi *load.FuncInfo) {
 		aC := fn.FromAfter(recv, an.StateAfter(recv).Assume(gf.Not(gf.FBool(fn.Term(okID)))))
 		again := aC.Reentered(recv)
 		anySend := false
-		ast.Inspect(fi.Decl.Body, func(n ast.Node) bool {
-			if s, ok := n.(*ast.SendStmt); ok && aC.StateBefore(s).Reachable() {
+		for _, o := range sends {
+			if aC.StateBefore(o).Reachable() {
 				anySend = true
 			}
-			return true
-		})
+		}
 		c.Check(!again && !anySend, "C20.3-source-closed-ends-relay", name+": !ok on receive", recv.Pos(), "when the source channel is closed the relay returns (no send, no further receive)", "a closed source does not end the relay")
 	} else {
 		c.Bad("C20.3-source-closed-ends-relay", name+": receive", recv.Pos(), "the receive does not test for a closed source channel")
 	}
-	// (5) faithful relay: the converted send
-	ast.Inspect(fi.Decl.Body, func(n ast.Node) bool {
-		s, ok := n.(*ast.SendStmt)
-		if !ok {
-			return true
+	// (5) faithful relay: path by path at every send, what is sent is the received event itself, or an event whose Type is
+	// the received Type and whose Object is the result of ToBuiltinStatefulSet applied to the received Object
+	var convCalls []*ast.CallExpr
+	for _, bd := range fn.Bodies() {
+		for _, call := range callsIn(bd, false) {
+			if cf := gf.StaticCallee(info, call); cf != nil && cf.Name() == "ToBuiltinStatefulSet" && len(call.Args) == 1 {
+				convCalls = append(convCalls, call)
+			}
 		}
-		if fn.Term(s.Value).Key() == fn.Term(event).Key() {
-			return true // forwarded unchanged
-		}
+	}
+	gObj := gf.Field(gT, "Object", nil)
+	var advT types.Type
+	if tn := c.P.Lookup(load.APIPkg, "StatefulSet"); tn != nil {
+		advT = types.NewPointer(tn.Type())
+	}
+	for _, sd := range sites {
+		s := sd.s
 		sname := fmt.Sprintf("%s: send of %s", name, clip(types.ExprString(s.Value), 50))
-		lit, ok := ast.Unparen(s.Value).(*ast.CompositeLit)
-		good := false
-		if ok {
-			var typ, obj ast.Expr
+		st := an.StateBefore(s)
+		if !st.Reachable() {
+			continue
+		}
+		// the value's Type and Object as expressions (a literal at the send) or as fields of the sent term
+		var typT, objT *gf.Term
+		vT := fn.Term(s.Value)
+		if lit, ok := ast.Unparen(s.Value).(*ast.CompositeLit); ok {
 			for _, el := range lit.Elts {
 				if kv, ok := el.(*ast.KeyValueExpr); ok {
 					if k, ok := kv.Key.(*ast.Ident); ok {
 						switch k.Name {
 						case "Type":
-							typ = kv.Value
+							typT = fn.Term(kv.Value)
 						case "Object":
-							obj = kv.Value
+							objT = fn.Term(kv.Value)
 						}
 					}
 				}
 			}
-			if typ != nil && obj != nil && fn.Term(typ).Key() == c.WantTerm(fn, s.Pos(), "$1.Type", event).Key() {
-				if conv := assignedFromCall(fi, info, obj); conv != nil {
-					if cf := gf.StaticCallee(info, conv); cf != nil && cf.Name() == "ToBuiltinStatefulSet" && len(conv.Args) == 1 {
-						// its argument is the assertion of event.Object
-						if src := defRHS(fi, info, conv.Args[0]); src != nil {
-							if ta, ok := ast.Unparen(src).(*ast.TypeAssertExpr); ok && fn.Term(ta.X).Key() == c.WantTerm(fn, s.Pos(), "$1.Object", event).Key() {
-								good = true
-							}
+		} else {
+			typT, objT = gf.Field(vT, "Type", nil), gf.Field(vT, "Object", nil)
+		}
+		okAll := true
+		var why string
+		for _, d := range st.D {
+			one := gf.State{D: []*gf.Disj{d}}
+			if same, _ := one.Implies(gf.FEq(vT, gT)); same {
+				// forwarded as received: only an event that does not carry an Advanced StatefulSet
+				if advT != nil {
+					if notSet, _ := one.Implies(gf.Not(gf.FBool(gf.TypeIs(gObj, advT)))); !notSet {
+						okAll, why = false, "on some path the received event is sent on unconverted although its payload was not found to be something other than an Advanced StatefulSet: "+clip(d.String(), 300)
+					}
+				}
+				continue
+			}
+			if typT == nil || objT == nil {
+				okAll, why = false, "the sent value is neither the received event nor an event with visible Type and Object"
+				continue
+			}
+			okType, _ := one.Implies(gf.FEq(typT, gf.Field(gT, "Type", nil)))
+			okObj := false
+			for _, cc := range convCalls {
+				as, _ := stmtOf(bodyOfCall(fn, cc), cc).(*ast.AssignStmt)
+				if as == nil || len(as.Lhs) < 1 {
+					continue
+				}
+				res := fn.Term(as.Lhs[0])
+				isRes, _ := one.Implies(gf.FEq(objT, res))
+				// its argument is the received object asserted to the Advanced type
+				arg := fn.Term(cc.Args[0])
+				fromRecv := false
+				for _, o := range append(d.EqualTerms(arg), arg) {
+					if o.K == 't' && len(o.A) == 1 {
+						if eq, _ := one.Implies(gf.FEq(o.A[0], gObj)); eq || o.A[0].Key() == gObj.Key() {
+							fromRecv = true
 						}
 					}
 				}
+				if isRes && fromRecv {
+					okObj = true
+				}
+			}
+			if !okType || !okObj {
+				okAll, why = false, "on some path the sent event does not carry the received Type and the conversion of the received Object: "+clip(d.String(), 400)
 			}
 		}
-		c.Check(good, "C20.5-faithful-relay", sname, s.Pos(), "Type is the received Type, Object is the conversion of the received Object", "the relayed event does not carry the received type and the converted received object")
-		return true
-	})
+		c.Check(okAll, "C20.5-faithful-relay", sname, s.Pos(), "the received event itself, or Type = received Type and Object = ToBuiltinStatefulSet(received Object)", why)
+	}
 	// multiplicity: after a send, no other send before the next receive; after a receive with ok, some send or exit before the next receive
-	var sends []ast.Node
-	ast.Inspect(fi.Decl.Body, func(n ast.Node) bool {
-		if s, ok := n.(*ast.SendStmt); ok {
-			sends = append(sends, s)
-		}
-		return true
-	})
-	for i, s := range sends {
-		// start in the body of the select case of this send
-		p := pathTo(fi.Decl.Body, s)
+	for i, sd := range sites {
+		s := sd.s
+		p := pathTo(sd.body, s)
 		var cc *ast.CommClause
 		if len(p) >= 2 {
 			cc, _ = p[len(p)-2].(*ast.CommClause)
@@ -339,7 +418,6 @@ func (c *Ctx) relayFunction(fi *load.FuncInfo) {
 		if cc == nil {
 			continue
 		}
-		// the state right after the select whose case was taken: approximate by the statement following the select
 		var selStmt *ast.SelectStmt
 		for j := len(p) - 3; j >= 0; j-- {
 			if x, ok := p[j].(*ast.SelectStmt); ok {
@@ -352,7 +430,7 @@ func (c *Ctx) relayFunction(fi *load.FuncInfo) {
 		}
 		twice := false
 		// from the case body of this send (empty body -> falls to after the select)
-		blk := enclosingBlock(fi.Decl.Body, selStmt)
+		blk := enclosingBlock(sd.body, selStmt)
 		var next ast.Node
 		for k, st := range blk.List {
 			if st == ast.Stmt(selStmt) && k+1 < len(blk.List) {
@@ -377,7 +455,19 @@ func (c *Ctx) relayFunction(fi *load.FuncInfo) {
 		// stopping at the sends, the next receive must be unreachable (every received event is sent, or the relay ends)
 		c.Check(!aO.Reentered(recv), "C20.5-at-least-one-send-per-receive", name+": after a successful receive", recv.Pos(), "every path to the next receive passes a send", "a received event can be skipped without being sent")
 	}
+	_ = nAssert
 }
+
+// bodyOfCall returns the body (the function's own or an expanded helper's) that contains call.
+func bodyOfCall(fn *gf.Fn, call *ast.CallExpr) *ast.BlockStmt {
+	for _, bd := range fn.Bodies() {
+		if contains(bd, call) {
+			return bd
+		}
+	}
+	return fn.Body
+}
+
 
 // closedByStop: names of the struct fields (channels) that the Stop method closes.
 func (c *Ctx) closedByStop() map[string]bool {
